@@ -282,8 +282,30 @@ func genMint(r *rand.Rand, g *gstate) string {
 		}
 		return regs[:n]
 	}
-	scenario := r.Intn(21)
+	scenario := r.Intn(23)
 	switch {
+	case scenario >= 21: // free mixture of every kind of signature entry, in any order
+		m := 1 + thr + r.Intn(3)
+		for j := 0; j < m; j++ {
+			k := r.Intn(zcnw.NKeys)
+			if len(regs) > 0 && r.Intn(3) != 0 {
+				k = regs[r.Intn(len(regs))]
+			}
+			switch r.Intn(9) {
+			case 0, 1, 2, 3:
+				sigs = append(sigs, valid(k))
+			case 4, 5, 6:
+				sigs = append(sigs, forged(k))
+			case 7:
+				sigs = append(sigs, fmt.Sprintf("k%d/b%d", k, r.Intn(8)))
+			default:
+				if r.Intn(2) == 0 {
+					sigs = append(sigs, fmt.Sprintf("e/%s=", randScalar(r)))
+				} else {
+					sigs = append(sigs, forged(zcnw.NKeys+r.Intn(2)))
+				}
+			}
+		}
 	case scenario == 20: // one forged signature under the lowest registered id, then ids without any stake pool
 		if len(regs) > 0 {
 			lo := regs[0]
@@ -657,6 +679,7 @@ func oracle(ops, outs []string) *corr.Violation {
 	var maxFee uint64
 	var percent float64
 	minted := map[int64]bool{}
+	var recorded []*corr.Violation // violations with the signature of a recorded finding (reported only if nothing else fails)
 	for i, op := range ops {
 		w := strings.Fields(op)
 		if w[0] == "init" {
@@ -750,7 +773,12 @@ func oracle(ops, outs []string) *corr.Violation {
 			if invalidWellFormed {
 				sig = "quorum-bypassed-by-wellformed-invalid-signature"
 			}
-			return mk(sig, fmt.Sprintf("%d distinct registered authorizers signed this payload validly, threshold RoundToEven(%v*%d) = %d", len(signers), percent, prev.count, thr), i)
+			v := mk(sig, fmt.Sprintf("%d distinct registered authorizers signed this payload validly, threshold RoundToEven(%v*%d) = %d", len(signers), percent, prev.count, thr), i)
+			if sig != "quorum-bypassed-by-wellformed-invalid-signature" {
+				return v
+			}
+			// recorded finding: keep judging the rest of the run, so that it cannot hide another violation
+			recorded = append(recorded, v)
 		}
 		// (4) amounts: the client receives amount − fee share, the share (≤ max fee) is credited to one authorizer
 		if sender != 0 && sender != 1 {
@@ -795,8 +823,19 @@ func oracle(ops, outs []string) *corr.Violation {
 				sig := "fee-share-credit-mismatch"
 				if changed == 0 && share.Sign() > 0 {
 					sig = "fee-share-credited-to-nobody"
+					// classification only: some registered authorizer named in the payload has a pool that
+					// DistributeRewards skips (killed, or total stake below the pool's minimum stake)
+					for _, sg := range p.sigs {
+						if pl, ok := prev.pools[sg.key]; ok && prev.reg[sg.key] && (pl.killed || pl.stake.Cmp(pl.minStake) < 0) {
+							sig = "fee-share-dropped-understaked-or-killed-pool"
+						}
+					}
 				}
-				return mk(sig, fmt.Sprintf("fee share %s taken from the client, %s credited to authorizer stake pools (%d pools changed)", share, credited, changed), i)
+				v := mk(sig, fmt.Sprintf("fee share %s taken from the client, %s credited to authorizer stake pools (%d pools changed)", share, credited, changed), i)
+				if sig != "fee-share-dropped-understaked-or-killed-pool" {
+					return v
+				}
+				recorded = append(recorded, v)
 			}
 			if changed == 1 {
 				inPayload := false
@@ -814,6 +853,9 @@ func oracle(ops, outs []string) *corr.Violation {
 			return mk("mint-changed-burn-or-registration-state", "", i)
 		}
 		prev = cur
+	}
+	if len(recorded) > 0 {
+		return recorded[0]
 	}
 	return nil
 }
